@@ -59,6 +59,7 @@ type TLCResult struct {
 	WallS      float64
 	Tail       []string
 	ZeroCov    []string // coverage lines with count 0 (only with Coverage)
+	Marks      []string // lines printed by the specification itself (Print of a tuple starting with an upper-case tag)
 	PostFailed bool
 }
 
@@ -175,6 +176,9 @@ func RunTLC(o TLCOpts) (*TLCResult, error) {
 				o.OnOut(json.RawMessage(raw))
 			}
 			continue
+		}
+		if strings.HasPrefix(line, `<<"`) && len(res.Marks) < 50 {
+			res.Marks = append(res.Marks, line)
 		}
 		if m := reStates.FindStringSubmatch(line); m != nil {
 			res.Generated, _ = strconv.ParseInt(m[1], 10, 64)
